@@ -182,6 +182,21 @@ carquet_status_t carquet_reader_row_group_matches(
 
     compare_fn_t cmp_fn = get_compare_fn(type);
 
+    /* NaN compares equal to nothing: no min/max reasoning applies */
+    if (type == CARQUET_PHYSICAL_FLOAT) {
+        float v, lo, hi;
+        memcpy(&v, value, sizeof(v));
+        memcpy(&lo, stats.min_value, sizeof(lo));
+        memcpy(&hi, stats.max_value, sizeof(hi));
+        if (v != v || lo != lo || hi != hi) return CARQUET_OK;
+    } else if (type == CARQUET_PHYSICAL_DOUBLE) {
+        double v, lo, hi;
+        memcpy(&v, value, sizeof(v));
+        memcpy(&lo, stats.min_value, sizeof(lo));
+        memcpy(&hi, stats.max_value, sizeof(hi));
+        if (v != v || lo != lo || hi != hi) return CARQUET_OK;
+    }
+
     int cmp_min, cmp_max;
 
     if (cmp_fn) {
